@@ -214,6 +214,14 @@ def histories(rec, r, n):
         if j % 5 == 1:
             d = {(0x0620, 0x01): b"\x00\x01\x00\x00", (0x0620, 0x06): b"Name", (0x0101, 5): None, (0x0300, None): None}
         src = ("history", j)
+        # error path first: conversions that are refused AFTER valid entries were already processed (content too long for
+        # its length byte, key out of range, content of the wrong type) - whatever they leave behind must not show below
+        for bad in ({(1, 1): b"ok", (2, 2): bytes(300 + j)}, {(1, 1): b"a", (3, None): None, (0x20000, 1): b"x"}, {(1, 1): b"a", (5, 5): "text"}):
+            for call in (lambda: rec.tlv(dict(bad)), lambda: rec.Bf3File({}, []).set_config(dict(bad), [b"\x01\x02"])):
+                try:
+                    call()
+                except Exception:                                 # noqa: BLE001 -- refused, as intended
+                    pass
         equal = dict(reversed(list(d.items())))                   # equal dictionary, other object, other insertion order
         x1, x2 = _extra(r), _extra(r)
         rec.rec_tlv(d, src)
